@@ -88,6 +88,9 @@ func genC01(c *Ctx) {
 	// with the big single cases below: c01c.go)
 	hist := newC01HistGen(c, r.Fork(0xc01b))
 	genC01Sharing(c, r.Fork(0xc01a), func(cells int) { hist.next(1 + cells/30) })
+	// bundles of differently pruned copies of one tree (what the
+	// de-duplication key must identify): c01e.go
+	genC01Views(c, r.Fork(0xc01f), func(cells int) { hist.next(1) })
 	// big single cases, run one at a time between the random DAGs
 	var big []func()
 	n := c.Scale(110, 3000)
@@ -95,12 +98,27 @@ func genC01(c *Ctx) {
 	for i := 0; i < n; i++ {
 		if i == 0 {
 			big = c01BigCases(c, r.Fork(0xc01d))
+			// densely filled cells (output capacity): c01e.go
+			dense := c01DenseClosures(c, r.Fork(0xc01e))
+			var mix []func()
+			for len(big) > 0 || len(dense) > 0 {
+				if len(dense) > 0 {
+					mix, dense = append(mix, dense[0]), dense[1:]
+				}
+				if len(dense) > 0 {
+					mix, dense = append(mix, dense[0]), dense[1:]
+				}
+				if len(big) > 0 {
+					mix, big = append(mix, big[0]), big[1:]
+				}
+			}
+			big = mix
 			step = n/(len(big)+1) + 1
 		}
 		if i%step == step-1 && len(big) > 0 {
 			big[0]()
 			big = big[1:]
-			hist.next(4)
+			hist.next(2)
 		}
 		size := 1 + r.Intn(16)
 		switch {
@@ -398,6 +416,8 @@ func c01Oracles(c *Ctx, in sx.V, dag []Node, out sx.V) {
 		return
 	}
 	root := cells[0]
+	// every exported entry point agrees with ToBocCustom / DeserializeBoc: c01e.go
+	c01EntryPoints(c, in, root, own, in.List[2].Bool, in.List[3].Bool, in.List[4].Bool)
 	// stored once: the cell count in the header equals the number of distinct hashes
 	seen := map[*boc.Cell]bool{}
 	countCells(root, seen)
